@@ -154,6 +154,75 @@ def scripted_part(ck):
             "scripted_inconclusive_singular_tiny_cluster": len(inconclusive)}
 
 
+def _big_batch_job(job):
+    """More than 4096 particles (and a trimmed training pool of more than 10^4 points): the label the clusterer gives a particle is a
+    function of the PARTICLE - not of the batch it is predicted in, its position in it, or the batch's length.  Every predict() call
+    the library makes during a real run is re-asked in reversed order and in pieces of 1000 rows (the same fitted model, the same
+    rows): a particle labelled differently there carries a label that is not the cluster it belongs to."""
+    core.import_repo()
+    import warnings
+
+    warnings.filterwarnings("ignore")
+    import numpy as np
+    from vlib import drivers
+    try:
+        from tempest.cluster import HierarchicalGaussianMixture as HGM
+        orig = HGM.predict
+    except Exception as ex:
+        return {"skipped": "binding lost: " + repr(ex), "bad": [], "calls": 0, "multi": 0}
+    out = {"skipped": None, "bad": [], "calls": 0, "multi": 0, "busy": False}
+
+    def checked(self, X):
+        L = np.asarray(orig(self, X))
+        if out["busy"]:
+            return L
+        out["busy"] = True
+        try:
+            X_ = np.asarray(X)
+            n = len(X_)
+            out["calls"] += 1
+            if n > 1 and len(set(L.tolist())) >= 2:
+                out["multi"] += 1
+            if n > 1:
+                rev = np.asarray(orig(self, X_[::-1].copy()))[::-1]
+                pcs = np.concatenate([np.asarray(orig(self, X_[j:j + 1000].copy())) for j in range(0, n, 1000)])
+                for how, other in (("reversed batch", rev), ("pieces of 1000 rows", pcs)):
+                    d = np.nonzero(other != L)[0]
+                    if len(d) and len(out["bad"]) < 4:
+                        out["bad"].append(f"predict() on a batch of {n} rows: {len(d)} particles (first at row {int(d[0])}) get another label when the same rows are predicted as {how}")
+        finally:
+            out["busy"] = False
+        return L
+
+    HGM.predict = checked
+    try:
+        np.random.seed(job["seed"])
+        s, _ = drivers.build_sampler(dict(clustering=True, n_particles=job["n_particles"], target="bimodal", sample=job["kernel"], evaluation="vector", n_steps=2, n_max_steps=2), None)
+        s.run(n_total=job["n_total"], progress=False)
+    except Exception as ex:
+        out["raised"] = repr(ex)
+    finally:
+        HGM.predict = orig
+    del out["busy"]
+    return out
+
+
+def big_batch_part(ck):
+    from vlib import procs
+
+    jobs = [dict(n_particles=4200 + 37 * i, n_total=3 * 4200, kernel=k, seed=1490 + i + 10 * ck.seed) for i, k in enumerate(["rwm", "tpcn"][: (1 if ck.tier == "quick" else 2)])]
+    res = procs.run(_big_batch_job, jobs, procs=len(jobs), timeout=900)
+    calls = multi = 0
+    for j, (st, r) in zip(jobs, res):
+        if st != "ok":
+            raise RuntimeError("big-batch worker failed: " + str(r)[:400])
+        calls += r["calls"]
+        multi += r["multi"]
+        for b in r["bad"][:1]:
+            ck.violation("big-batch:label-is-a-function-of-the-particle", f"{b} ({j})", {"job": j, "all": r["bad"]})
+    return {"big_batch_predict_calls_checked": calls, "big_batch_predict_calls_with_two_or_more_labels": multi}
+
+
 def main():
     ck = core.Check("C14", "model_checking")
     if ck.args.replay:
@@ -180,6 +249,7 @@ def main():
     cov.update(sysrun.selftest(traces[0]))
     sp = scripted_part(ck)
     cov.update(sp)
+    cov.update(big_batch_part(ck))
     # "... and after resuming from a checkpoint": runs with save_every, every (<= 4) checkpoint resumed in a fresh sampler
     # (whose clusterer is unfitted), whole resumed traces validated
     from vlib import procs, psrun
